@@ -12,10 +12,10 @@ CHECKS = {
  "C02": ("loop-invariant append-base analysis over natural loops (aliasing) + map-iteration-order rule (sorted before use, ascending string comparison) + dominating-guard rules (unknown column error, non-zero cardinality) + provenance of each group field + the write/freshness census shared with C08 and the in-place-mutation rule shared with C03 + must-pass-through of the group-by resolution before every successful return",
          "Static, for all datasets, expressions and group-by lists: sibling groups cannot share a backing array; per-level values are sorted ascending; unknown columns are errors; only non-empty refinements become groups; each field names its level's column and refining value; Execute keeps no state in the Query and mutates no shared bitmap.",
          "Not decided: exact counts and tuple sets (values); lexicographic order of the whole list (follows from nested sorted iteration).", "DESIGN.md §4 C02"),
- "C03": ("interprocedural taint of operand cache keys to a hash sink + SSA shape of Get/Put key pairing + effect/freshness census of bitmap mutators over the call graph + who-may-use-the-cache census + element-loop checks of the key list (one key per operand, whole list hashed) + leaf-key field coverage",
+ "C03": ("interprocedural taint of operand cache keys to a hash sink + SSA shape of Get/Put key pairing + effect/freshness census of bitmap mutators over the call graph + who-may-use-the-cache census + element-loop checks of the key list (one key per operand, whole list hashed) + leaf-key field coverage + escape rule for values that may hold a cache option (kept in maps/fields/globals)",
          "Static, for all query sequences and cache sizes: operand keys reach the returned key only through an injective encoding hashed together with a distinct per-operator tag (no arithmetic combiner); each eval looks up/stores under its own key and stores exactly what it returns; no reachable code mutates a bitmap it did not create; index state is written only while opening. These are necessary conditions for cache transparency, decided on every path; the behavioural equality itself is not executed or proven.",
          "Not decided: result equality with an uncached index as such; 64-bit collisions; LRU policy (C07). Trusted: roaring API classification, xxhash, go/ssa, call graph over-approximation.", "DESIGN.md §4 C03"),
- "C04": ("must-hold lock-state dataflow over SSA with exact defer replay + write/freshness census over the call graph from the concurrent entry points + lock-balance path search + in-place-mutation rule on shared bitmaps",
+ "C04": ("must-hold lock-state dataflow over SSA with exact defer replay + write/freshness census over the call graph from the concurrent entry points + lock-balance path search + in-place-mutation rule on shared bitmaps + alias/escape analysis of sync.Pool objects against their Put + no-mutable-package-state census",
          "Static, for all schedules: every write to shared memory reachable from Execute/GetSchema/LRUCache.Get/Put is inside an exclusive critical section of a mutex on its access path and every read of such memory holds it; index, schema, getters, Query and globals are not written at all; only read-only bbolt transactions. This proves race freedom of updog's own memory rather than sampling interleavings.",
          "Not decided: sequential-equivalence of results (follows from race freedom + C03.pure, not checked as such). Trusted: sync primitives, thread-safety of concurrent reads in roaring/bbolt/prometheus.", "DESIGN.md §4 C04"),
  "C05": ("path-sensitive typestate exploration of the writers' flush functions (bitmap nil/dirty/persisted; transaction/bucket lifetime) + table agreement of the binary codecs and of the gob schema encoding + map-order rule on GetSchema + must-pass-through of the temp commit + must-pass-through (lookup-present edge or map insertion) in schema.add + the row-id rules shared with C18 + who-may-write rules (package state, bucket fields) + def-use rule on decoded row ids",
@@ -24,25 +24,25 @@ CHECKS = {
  "C06": ("must-pass-through path search on the SSA CFG of both writers' flush functions (header puts / commits / bitmap puts keyed by the resolved key variables) + dominating-guard and error-flow rules in the open function + release / transaction-end path rules shared with C15 + length guards on bytes read from the file",
          "Static, for every crash point at commit granularity: on no path can a transaction holding the schema or row counter be committed before the last bitmap put; the two header keys share a transaction and every success return has committed them; the open function nil-guards the bucket, length-guards every binary decode and propagates decode errors. So every committed prefix is rejected by OpenIndex with an error, on all paths including ones that need a crash to execute.",
          "Not decided: equality of answers of a completely written file (C05); sub-transaction crash points. Trusted: bbolt commit atomicity, gob fails on an empty schema item.", "DESIGN.md §4 C06"),
- "C09": ("typestate of the lexer channel (close on every exit of the goroutine, drain deferred on every path of ParseQuery) + edge-cut path search for the end-of-input test with NORETURN summaries + value-range provenance of the placeholder number + table of panic operand types + structural resolution of the lexer/parser entities + consume/emit pairing per lexer state + phi-sensitive path search for unterminated tokens + result-cell rule for the recovering parse function + operator-kind evaluation of operand loops",
+ "C09": ("typestate of the lexer channel (close on every exit of the goroutine, drain deferred on every path of ParseQuery) + edge-cut path search for the end-of-input test with NORETURN summaries + value-range provenance of the placeholder number + table of panic operand types + structural resolution of the lexer/parser entities + consume/emit pairing per lexer state + phi-sensitive path search for unterminated tokens + result-cell rule for the recovering parse function + operator-kind evaluation of operand loops (loop-header test interpreted for every token-kind constant, through predicates and constant maps) + increment/decrement balance of parser counters",
          "Static, for every input string: no parse can leave the lexer goroutine blocked; no query is returned on a path that has not seen the end-of-input token; the placeholder number cannot wrap when narrowed to int32; every panic raised by the parser is an error value caught by ParseQuery's recover handler.",
          "Not decided: language equality with the EBNF and tree shape; runtime-panic freedom of the lexer's index arithmetic; termination (all need numeric/language reasoning not available statically here).", "DESIGN.md §4 C09"),
  "C10": ("symbolic execution of each operator formatter's CFG under an assumed operand kind (kind tests resolved, other branches explored both ways) checked against the parenthesisation table derived from the parser + constant-table agreement of quoting between formatter and parser + single-token-kind rule for the identifier state + provenance of stored column names",
          "Static, for all query trees: every oneof kind is formatted; an AND/OR operand of NOT, an OR operand of AND and an AND operand of OR are bracketed on every path, brackets always balance; quoting constants of formatter and parser are inverse; comparison/placeholder/group-by formats are the ones the lexer reads. Necessary conditions of the round trip, on all paths.",
          "Not decided: the round-trip equality and format∘parse fixpoint themselves (need the parser's accepted language, C09's undecided clause).", "DESIGN.md §4 C10"),
- "C19": ("SSA provenance of each csv record to exactly one AddRow (edge-cut path search per Read site) + shape rule on the header/record index + range analysis of the rune mapper + error-flow with the io.EOF exception + open-site option evaluation (reader state followed through helper types)",
+ "C19": ("SSA provenance of each csv record to exactly one AddRow (edge-cut path search per Read site) + shape rule on the header/record index + range analysis of the rune mapper + error-flow with the io.EOF exception + open-site option evaluation (reader state followed through helper types) + provenance of the csv delimiter to a flag default",
          "Static, for all CSV files and both modes: strict csv defaults untouched; the first record and only it is the header; every other successfully read record becomes values[header[i]]=record[i] over the whole record and reaches exactly one AddRow; normalisation keeps a-z and maps the rest to '_' after lower-casing; all failures reach a non-zero exit; success implies Flush; output opened O_EXCL.",
          "Not decided: normal vs --big observational identity (C05); csv parsing (encoding/csv, trusted).", "DESIGN.md §4 C19"),
- "C11": ("ownership (freshness) census of every store to generated message structs program-wide + symbolic index-bounds check (dominating comparisons over loads of the same field path with linear offsets) + edge-cut path search for the arity test + callback-never-stops rule for the placeholder walk + provenance of the statement's parsed query",
+ "C11": ("ownership (freshness) census of every store to generated message structs program-wide + symbolic index-bounds check (dominating comparisons over loads of the same field path with linear offsets) + edge-cut path search for the arity test + callback-never-stops rule for the placeholder walk + provenance of the statement's parsed query + write census on prepared-statement objects",
          "Static, for every query text, argument list and execution history: binding writes only into the deep copy; no code outside the generated package modifies a message it did not create, so statement templates are immutable; the argument slice is indexed only under 0 <= n-1 < len; both statement kinds test the argument count before binding on every path.",
          "Not decided: that argument n lands in $n for all n (value-level). Trusted: proto.Clone deep-copies; database/sql argument order.", "DESIGN.md §4 C11"),
- "C12": ("dominating-guard rule on the total-count row + error-flow rule over all error-returning calls of the driver + table/shape rules on the column list, the column-type split and Rows.Next + freshness of row storage + positional placement of group values",
+ "C12": ("dominating-guard rule on the total-count row + error-flow rule over all error-returning calls of the driver + table/shape rules on the column list, the column-type split and Rows.Next + freshness of row storage + positional placement of group values + write census on prepared-statement objects + cache-option escape rule",
          "Static, for all datasets/queries/options: the single total row is built only when the group-by list is empty; every error from parsing, conversion, execution, opening and the RPC propagates; columns are group-by columns then \"count\", typed TEXT/BIGINT with the split at len(cols)-1, and Next places values and count accordingly.",
          "Not decided: equality of row values/order with the library result (values). Trusted: database/sql's use of the Rows interface.", "DESIGN.md §4 C12"),
- "C13": ("table agreement of converter field mappings and oneof case coverage (typed SSA stores) + SSA provenance chain of the appended response element + must-pass-through of the append per iteration + error-flow (obligations followed through helper functions with parameter binding)",
+ "C13": ("table agreement of converter field mappings and oneof case coverage (typed SSA stores) + SSA provenance chain of the appended response element + must-pass-through of the append per iteration + error-flow (obligations followed through helper functions with parameter binding; nodes built through summarised constructor functions)",
          "Static, for all batches: converters map each field to its namesake (reviewed exceptions) and set every exported field; every oneof wrapper has a case yielding the matching node with its own operands in order; each loop iteration appends exactly its own query's converted result with the right id; errors yield a nil response; both driver paths build rows the same way.",
          "Not decided: equality of counts/groups with the library (values); wire encoding losslessness (trusted).", "DESIGN.md §4 C13"),
- "C14": ("interprocedural nil-ability analysis of protobuf message pointers (fixpoint over call sites) with dominating nil guards + non-nil-by-construction check of conversion results + error-flow in the handler + interval refutation of re-slicing bounds + non-zero divisors + non-nil results of eval",
+ "C14": ("interprocedural nil-ability analysis of protobuf message pointers (fixpoint over call sites) with dominating nil guards + non-nil-by-construction check of conversion results + error-flow in the handler + interval refutation of re-slicing bounds + non-zero divisors + non-nil results of eval + constructor summaries (always-fresh results)",
          "Static, for every decodable request: every dereference of a possibly-nil message pointer reachable from the handler is nil-guarded; conversion never yields a nil Expression without an error and operands are used only when their conversion succeeded; handler errors become RPC errors. Necessary because grpc-go does not recover handler panics.",
          "Not decided: recursion depth for deeply nested expressions (bounded by protobuf-go/gRPC limits, trusted); continued correct service afterwards beyond lock release (C04).", "DESIGN.md §4 C14"),
  "C15": ("constant-option evaluation of the open hook + dominating nil/length guards + error-flow + must-pass-through (Close before every error return; Rollback/Commit after every explicit Begin) on the open functions + lock-balance + transaction-end ordering (LIFO defers) + options-after-validation",
@@ -60,7 +60,7 @@ CHECKS = {
  "C16": ("who-may-call census of bbolt.Open sites with constant-folded open options evaluated through openfile.OpenFile's CFG + callee deny-list over the call graph from all read entry points + who-may-call rule for path-destroying os calls on output paths (dominated-by-own-exclusive-create exemption)",
          "Static, for all file contents and query sequences: every output open carries O_EXCL, every input/scratch open clears O_CREATE (decided by evaluating OpenFile's branches on the site's constant options and the flag arithmetic of the returned hook); no bbolt write API or file-mutating os call is reachable from open/execute/schema/close, the driver's file connection or the gRPC handler.",
          "Not decided: byte-for-byte equality as such. Trusted: bbolt.Open(read-write) does not modify a well-formed file; OS O_EXCL semantics; call graph over-approximation.", "DESIGN.md §4 C16"),
- "C18": ("must-hold lock-state dataflow (exclusive mode, callee context propagation, LIFO defer replay) + SSA value identity of the row id + path enumeration of counter increments + lock-balance",
+ "C18": ("must-hold lock-state dataflow (exclusive mode, callee context propagation, LIFO defer replay) + SSA value identity of the row id + path enumeration of counter increments + lock-balance + alias/escape analysis of sync.Pool objects against their Put",
          "Static, for all interleavings and both writers: every access to writer/schema state reachable from AddRow is under the writer's mutex held exclusively; the id used for all of a row's values is the SSA value returned; the counter is only ever incremented by one and exactly once on every successful path.",
          "Not decided: equality with the sequentially built index (follows from mutual exclusion + commutativity of bitmap Add). Trusted: sync.Mutex, bbolt single-goroutine write tx.", "DESIGN.md §4 C18"),
 }
